@@ -268,4 +268,47 @@ PROPS = {
             "sim": "clock: testing/synctest; network: /verif/sim/simnet immediate mode; sequential history",
         },
     },
+    "C03": {
+        "engine": "sysim",
+        "instrument": "",
+        "cfgs": [""],
+        "quick": {"seconds": 30, "chunk": 2000, "runs": 100000},
+        "thorough": {"seconds": 900, "chunk": 8000},
+        "rule": 'one run = a universe of 3 profiles (one possibly deleted) and 6 devices (attached/detached; auth off, on with/without password, DoH-only with/without password; linked IPs; dedicated IPs) in the real profile DB, 7 servers (plain DNS with linked IP on/off, plain DNS bound to an interface with dedicated addresses, DoT, DoH, DoQ, DNSCrypt) and 4-40 requests whose identifier travels by URL path, basic-auth user with absent/right/wrong/empty password, TLS server name (exact, upper case, nested label, other domain, bare domain), EDNS CPE-ID, dedicated local address or linked client address - also on the wrong transport and with path and credentials of different devices; non-trivial = at least one device recognised; distinct = distinct decision-sequence hash',
+        "assumptions": ['the reference (identify) is written from the statement and doc/; a malformed identifier may be answered with an error, the statement only demands that nobody is recognised', 'human-readable IDs and automatic device creation are not exercised', 'identifiers are injected into dnsserver.RequestInfo as the transports would set them; their extraction from real TLS/HTTP traffic is not part of this check'],
+        "components": {
+            "real": ["dnssvc.NewHandlers stack: initial, ratelimitmw (request info, device finding, access checks, rate-limit gate), preservice, mainmw (filtering, recording), preupstream, ecscache", "internal/dnssvc/internal/devicefinder", "internal/profiledb.Default (fed once by a stub storage)", "internal/access Global and DefaultProfile", "agdpasswd bcrypt authenticator"],
+            "stub": ["transports (requests are injected as the servers would deliver them: server, addresses, TLS server name, URL, userinfo, EDNS)", "upstream, filter (verdict by name prefix), rate limiter (drops by name prefix), query log, billing, rule stats, DNSDB: recording fakes", "GeoIP (address -> ASN table)"],
+            "sim": "clock: testing/synctest; sequential request history",
+        },
+    },
+    "C10": {
+        "engine": "sysim",
+        "instrument": "",
+        "cfgs": [""],
+        "quick": {"seconds": 30, "chunk": 2000, "runs": 100000},
+        "thorough": {"seconds": 900, "chunk": 8000},
+        "rule": "same world; client addresses inside/outside the globally blocked subnet, inside a profile's blocked subnet and its allowed sub-range, with blocked and allowed ASNs; names matching global and per-profile rules (exact, ||domain^, $dnstype=AAAA) and unique harmless names; per-profile access settings drawn per run (blocked/allowed nets and ASNs, name rules); after an access-blocked request the same name is asked again by an allowed client and must reach the upstream; non-trivial = at least one access-blocked request; distinct = distinct decision-sequence hash",
+        "assumptions": ['the blocked predicate is written from the statement (global IP, global name, then profile: allowed subnet/ASN overrides blocked subnet/ASN, name rules)', 'requests dropped for other reasons (rate limit, unknown dedicated address) are not judged here'],
+        "components": {
+            "real": ["dnssvc.NewHandlers stack: initial, ratelimitmw (request info, device finding, access checks, rate-limit gate), preservice, mainmw (filtering, recording), preupstream, ecscache", "internal/dnssvc/internal/devicefinder", "internal/profiledb.Default (fed once by a stub storage)", "internal/access Global and DefaultProfile", "agdpasswd bcrypt authenticator"],
+            "stub": ["transports (requests are injected as the servers would deliver them: server, addresses, TLS server name, URL, userinfo, EDNS)", "upstream, filter (verdict by name prefix), rate limiter (drops by name prefix), query log, billing, rule stats, DNSDB: recording fakes", "GeoIP (address -> ASN table)"],
+            "sim": "clock: testing/synctest; sequential request history",
+        },
+    },
+    "C15": {
+        "parts": [
+            {"engine": "sysim", "cfgs": [""], "share": 2, "chunk": 2000},
+            {"engine": "qlogsim", "instrument": "internal/querylog=calls:os\\.OpenFile|WriteTo|\\.Write\\(|f\\.Close|Encode", "cfgs": ["", "sequential"], "share": 1, "chunk": 1500},
+        ],
+        "quick": {"seconds": 30, "chunk": 2000, "runs": 100000},
+        "thorough": {"seconds": 900, "chunk": 8000},
+        "rule": "same world with profiles' query-log and IP-log flags drawn per run; outcomes: allowed, blocked by a request rule, blocked by a response rule, dropped by the rate limiter, access-blocked, unknown dedicated address, anonymous; recording query log and billing recorder; non-trivial = at least one attributed request; distinct = distinct decision-sequence hash",
+        "assumptions": ['intact single-line JSON records under concurrent writers are checked by the qlogsim part on the real querylog.FileSystem', 'entry fields compared: name, type, rcode, request/response rule, protocol, device, profile, client address'],
+        "components": {
+            "real": ["dnssvc.NewHandlers stack: initial, ratelimitmw (request info, device finding, access checks, rate-limit gate), preservice, mainmw (filtering, recording), preupstream, ecscache", "internal/dnssvc/internal/devicefinder", "internal/profiledb.Default (fed once by a stub storage)", "internal/access Global and DefaultProfile", "agdpasswd bcrypt authenticator"],
+            "stub": ["transports (requests are injected as the servers would deliver them: server, addresses, TLS server name, URL, userinfo, EDNS)", "upstream, filter (verdict by name prefix), rate limiter (drops by name prefix), query log, billing, rule stats, DNSDB: recording fakes", "GeoIP (address -> ASN table)"],
+            "sim": "clock: testing/synctest; sequential request history",
+        },
+    },
 }
